@@ -396,3 +396,22 @@ CORPUS += [
     V("C18", "mtvrp-horizon-length-added", _MG, _HM, "        h_max = (self.max_time - service_time + tw_length) / d_0i * speed - 1", "C18.p"),
     V("C18", "eq-mtvrp-horizon-reordered", _MG, _HM, "        h_max = speed * (self.max_time - tw_length - service_time) / d_0i - 1", None),
 ]
+
+# ---- round 8
+_LIT = "rl4co/models/rl/common/base.py"
+_PTRD = "rl4co/models/zoo/ptrnet/decoder.py"
+CORPUS += [
+    V("C04", "flp-row-index-cached-on-the-env", _FLP, "        chosen[torch.arange(batch_size).to(td.device), selected] |= still_choosing", "        if getattr(self, \"_bidx\", None) is None:\n            self._bidx = torch.arange(batch_size).to(td.device)\n        chosen[self._bidx, selected] |= still_choosing", "C04.h"),
+    V("C04", "mcp-reward-from-the-live-weights", _MCE, "        chosen_weights = torch.sum(chosen_items * weights, dim=-1)\n\n        return chosen_weights", "        chosen_weights = torch.sum(chosen_items * weights, dim=-1)\n\n        return chosen_weights * 0 + (td[\"orig_weights\"] - td[\"weights\"]).sum(-1)", "C04.f"),
+    V("C10", "beam-ranking-of-probabilities", _DEC, "        log_beam_prob = logprobs + self.parent_beam_logprobs  #", "        log_beam_prob = (logprobs + self.parent_beam_logprobs).exp()  #", "C10.i"),
+    V("C10", "ptrnet-flags-exchanged-at-the-call", _PTRD, "x, h_in, logit_mask, context, self.mask_glimpses, self.mask_logits", "x, h_in, logit_mask, context, self.mask_logits, self.mask_glimpses", "C10.j"),
+    V("C10", "eq-ptrnet-flags-by-keyword", _PTRD, "x, h_in, logit_mask, context, self.mask_glimpses, self.mask_logits", "x, h_in, logit_mask, context, mask_logits=self.mask_logits, mask_glimpses=self.mask_glimpses", None),
+    V("C12", "unbatchify-shortcut-for-a-factor-of-one", _OPS, "    \"\"\"Undoes batchify operation for Tensordicts as well\"\"\"\n    s = x.shape", "    \"\"\"Undoes batchify operation for Tensordicts as well\"\"\"\n    if repeats == 1:\n        return x\n    s = x.shape", "C12.a"),
+    V("C12", "normaliser-per-coordinate-scale", _TRF, "    return (x - x.min()) / (x.max() - x.min())", "    lo, hi = x.amin(dim=-2, keepdim=True), x.amax(dim=-2, keepdim=True)\n    return (x - lo) / (hi - lo)", "C12.g"),
+    V("C12", "eq-normaliser-one-scale-per-instance", _TRF, "    return (x - x.min()) / (x.max() - x.min())", "    lo, hi = x.amin(dim=(-2, -1), keepdim=True), x.amax(dim=(-2, -1), keepdim=True)\n    return (x - lo) / (hi - lo)", None),
+    V("C16", "symnco-total-swallowed-by-a-conditional", _SYMM, "            loss = loss_ps + self.beta * loss_ss + self.alpha * loss_inv", "            loss = loss_ps if n_start > 1 else 0 + self.beta * loss_ss + self.alpha * loss_inv", "C16.b"),
+    V("C16", "eq-symnco-total-reordered", _SYMM, "            loss = loss_ps + self.beta * loss_ss + self.alpha * loss_inv", "            loss = self.alpha * loss_inv + loss_ps + loss_ss * self.beta", None),
+    V("C17", "training-loader-drops-the-last-batch", _LIT, "            shuffle=shuffle,\n            num_workers=self.dataloader_num_workers,", "            shuffle=shuffle,\n            drop_last=shuffle,\n            num_workers=self.dataloader_num_workers,", "C17.h"),
+    V("C17", "baseline-policy-shallow-copy", _BLF, "        self.policy = copy.deepcopy(policy).to(device)", "        self.policy = copy.copy(policy).to(device)", "C17.i"),
+    V("C17", "baseline-values-squeezed", _BLF, "            .detach()\n            .cpu()\n        )\n        return dataset.add_key", "            .detach()\n            .cpu()\n            .squeeze()\n        )\n        return dataset.add_key", "C17.j"),
+]
